@@ -79,7 +79,7 @@ PROPS = {
                      "evaluation = one oracle decision; non-trivial = a step whose accepted operation changed A's multiset while B holds rows over the same strings; distinct by (case, wiring, step)",
                 assumptions=["the gRPC transport of the ctx wiring conveys the network id as request metadata read by the Contextualizer (a server-side context cannot inherit client context values)",
                              "the raw wirings bypass the Mapper, hence namespace validation; they judge Manager / traverser / engine isolation only"]),
-    "C07": dict(test="TestC07", level="exploration", runs=[("", "plain", 16), ("race", "race", 4)], race_scale=0.1, timeout=(900, 5400), floor=(2900, 2000),
+    "C07": dict(test="TestC07", level="exploration", runs=[("", "plain", 16), ("race", "race", 4)], race_scale=(0.1, 0.03), timeout=(900, 5400), floor=(2900, 2000),
                 rule="families: iter (6 of 8 cases) = a stored multiset whose matches for one query of a random shape number m in {0,1,2,99,100,101,199,200,201,250}, plus non-matching and volatile rows; the query is listed to the end for every page size in "
                      "{0,1,2,3,50,100,101,1000,m-1,m,m+1} through Manager.GetRelationTuples, REST and gRPC (rotating): concatenation = match multiset, |page| <= effective size, token empty exactly when nothing remains; then up to 4 sizes again while a writer "
                      "(another transport) inserts and deletes other rows between page fetches: stable rows exactly once, volatile rows at most as often as they existed, nothing else; token (1 of 8) = truncated / non-UUID tokens must be client errors on all transports, "
@@ -113,7 +113,7 @@ PROPS = {
     # C05: mode "faults" = statement faults (SQLite triggers on a poison row) + invalid positions + fault-free controls; mode "isolation" = concurrent
     # histories (porcupine + direct oracle) on the WAL database and, labelled, the shared-cache memory DSN; mode "crash" = SIGKILL at the N-th
     # pwrite64/fsync/fdatasync (strace) of a child performing one 6001/201 transact
-    "C05": dict(test="TestC05", level="fault_enumeration", runs=[("faults", "plain", 8), ("isolation", "plain", 8), ("crash", "plain", 4), ("isolation-race", "race", 4)], race_scale=0.25, timeout=(1200, 7200), floor=(900, 800), ulimit_f_kb=2097152,
+    "C05": dict(test="TestC05", level="fault_enumeration", runs=[("faults", "plain", 8), ("isolation", "plain", 8), ("crash", "plain", 4), ("isolation-race", "race", 4)], race_scale=(0.25, 0.02), timeout=(1200, 7200), floor=(900, 800), ulimit_f_kb=2097152,
                 rule="faults: case = one write request (Manager.Write/Delete/TransactRelationTuples, REST PATCH/PUT/DELETE, gRPC Transact/Delete) with |I| in {1,2,2999,3000,3001,6001} (+7501 for the second uuid-mapping chunk), "
                      "|D| in {0,1,99,100,101,201}, and ONE failure: RAISE(ABORT) or RAISE(FAIL) from a SQLite trigger on a poison row placed in every chunk of the tuple INSERT (3000), tuple DELETE (100) and uuid-mapping INSERT (15000), "
                      "or a nil subject / unknown namespace / unknown subject-set namespace at position {0,1,mid,chunk edge-1,chunk edge,last} of a 6001/201 request; oracle: the request fails and the full database dump is unchanged "
@@ -316,7 +316,10 @@ def run_children(prop, cfg, tier, seed, workdir, replay=None):
         if kind == "race":
             env["GORACE"] = "halt_on_error=0 log_path=%s" % os.path.join(workdir, "race.%s" % tag)
             if "race_scale" in cfg and not os.environ.get("VERIF_SCALE"):
-                env["VERIF_SCALE"] = str(cfg["race_scale"])  # the -race build is 5-15x slower
+                rs = cfg["race_scale"]  # the -race build is 5-15x slower; (quick, thorough) or one value
+                if isinstance(rs, tuple):
+                    rs = rs[1] if tier == "thorough" else rs[0]
+                env["VERIF_SCALE"] = str(rs)
         if replay is not None:
             env["VERIF_REPLAY_INDEX"] = str(replay["index"])
             env["VERIF_REPLAY_SUB"] = str(replay.get("sub", ""))
@@ -326,7 +329,7 @@ def run_children(prop, cfg, tier, seed, workdir, replay=None):
         cmd = "ulimit -f %d; exec timeout -s QUIT -k 20 %d %s -test.run '^%s$' -test.timeout 0 -test.v" % (cfg.get("ulimit_f_kb", 204800), tmo, binary, cfg["test"])
         lf = open(logpath, "wb")
         p = subprocess.Popen(["bash", "-c", cmd], cwd=scratch, env=env, stdout=lf, stderr=subprocess.STDOUT, start_new_session=True)
-        return dict(job=job, proc=p, log=logpath, lf=lf, tag=tag, t0=time.time())
+        return dict(job=job, proc=p, log=logpath, lf=lf, tag=tag, t0=time.time(), kind=kind)
 
     rss_limit = float(os.environ.get("VERIF_RSS_LIMIT_GB", "8")) * (1 << 30)
     last_scan = 0.0
@@ -341,7 +344,9 @@ def run_children(prop, cfg, tier, seed, workdir, replay=None):
             last_scan = time.time()
             usage = _rss_by_pgrp()
             for c in running:
-                if usage.get(c["proc"].pid, 0) > rss_limit and not c.get("killed_rss"):
+                # the race detector's shadow memory multiplies the footprint of the harness itself
+                lim = rss_limit * (3 if c.get("kind") == "race" else 1)
+                if usage.get(c["proc"].pid, 0) > lim and not c.get("killed_rss"):
                     c["killed_rss"] = usage.get(c["proc"].pid, 0)
                     try:
                         os.killpg(c["proc"].pid, signal.SIGKILL)
@@ -443,7 +448,11 @@ def supervise(prop, cfg, tier, seed, workdir, replay, t0, write_evidence=True):
         if res is None or not res.get("complete"):
             cls, frames = death_signature(c["log"])
             opens = journal_open_cases(jpath)
-            if c.get("killed_rss"):
+            if c.get("killed_rss") and kind == "race":
+                # memory of a race-instrumented child is not comparable (shadow memory); the
+                # plain children of the same property carry the memory verdict
+                inconclusive.append("child %s (race build) exceeded the memory limit of the watchdog (%.1f GiB) and was stopped" % (c["tag"], c["killed_rss"] / float(1 << 30)))
+            elif c.get("killed_rss"):
                 oc = opens[0] if opens else {}
                 violations.append(dict(property=prop, index=oc.get("idx", -1), sub=oc.get("sub", ""), mode=mode,
                                        sig="%s:process-death:memory-exhaustion" % prop,
